@@ -101,7 +101,7 @@ class Prop:
             ev.append([t])
         via = rng.choice(["observe_on", "observe_on", "replay"])
         sc = {"via": via, "scheduler": rng.choice(["eventloop", "eventloop", "newthread"]), "events": ev,
-              "sched": th.gen_sched(rng, spurious_p=0.3, sweep_p=0.02)}
+              "sched": th.gen_sched(rng, spurious_p=0.3, sweep_p=0.02, stall_p=0.3)}
         if via == "replay":
             sc["buffer_size"] = rng.choice([None, None, 1, 2])
             sc["subscribe_after"] = rng.choice([0, 0, 1, 2, 3])
